@@ -1,9 +1,11 @@
 use crate::engine::{Report, Tier};
 
+pub mod c03;
 pub mod c12;
 
 pub fn run(id: &str, tier: Tier) -> Option<Report> {
     Some(match id {
+        "C03" => c03::run(tier),
         "C12" => c12::run(tier),
         _ => return None,
     })
@@ -31,6 +33,7 @@ pub fn replay(path: &str) -> i32 {
     let id = v["property"].as_str().unwrap_or("");
     let case = &v["case"];
     let res = match id {
+        "C03" => c03::replay(case),
         "C12" => c12::replay(case),
         _ => {
             eprintln!("no replay for property {id}");
